@@ -323,4 +323,300 @@ theorem newParametersFromLiteral_explicit_total (o : Oracle) (fuel : Nat) (lit :
   · exact Or.inr ⟨_, rfl⟩
   · exact newParameters_total ..
 
+/-! ### the generator never panics -/
+
+theorem upLoop_ne_panic (o : Oracle) (g : Gen) : ∀ fuel c, (upLoop o g fuel c).2 ≠ .panic := by
+  intro fuel
+  induction fuel with
+  | zero => intro c; simp [upLoop]
+  | succ f ih =>
+    intro c
+    unfold upLoop
+    split
+    · simp
+    · split
+      · simp
+      · split
+        · simp
+        · exact ih _
+
+theorem downLoop_ne_panic (o : Oracle) (g : Gen) : ∀ fuel c, (downLoop o g fuel c).2 ≠ .panic := by
+  intro fuel
+  induction fuel with
+  | zero => intro c; simp [downLoop]
+  | succ f ih =>
+    intro c
+    unfold downLoop
+    split
+    · simp
+    · split
+      · simp
+      · split
+        · simp
+        · exact ih _
+
+theorem altLoop_ne_panic (o : Oracle) (g : Gen) :
+    ∀ fuel np pp cn cp, (altLoop o g fuel np pp cn cp).2 ≠ .panic := by
+  intro fuel
+  induction fuel with
+  | zero => intro np pp cn cp; simp [altLoop]
+  | succ f ih =>
+    intro np pp cn cp
+    unfold altLoop
+    split
+    · simp
+    · dsimp only
+      split
+      · simp
+      · split
+        · simp
+        · exact ih _ _ _ _
+
+theorem nextPrimes_ne_panic (step : Gen → Gen × Res Nat) (hstep : ∀ g, (step g).2 ≠ .panic) :
+    ∀ k g, (nextPrimes step k g).2 ≠ .panic := by
+  intro k
+  induction k with
+  | zero => intro g; simp [nextPrimes]
+  | succ k ih =>
+    intro g
+    unfold nextPrimes
+    split
+    · rename_i g' p hst
+      split
+      · simp
+      · simp
+      · rename_i g'' hrec
+        exact absurd (by rw [hrec]) (ih g')
+      · simp
+    · simp
+    · rename_i g' hst
+      exact absurd (by rw [hst]) (hstep g)
+    · simp
+
+theorem genPrimes_ne_panic (o : Oracle) (fuel dir b r k : Nat) : genPrimes o fuel dir b r k ≠ .panic := by
+  unfold genPrimes
+  apply nextPrimes_ne_panic
+  intro g
+  split
+  · exact upLoop_ne_panic o g fuel _
+  · split
+    · exact downLoop_ne_panic o g fuel _
+    · exact altLoop_ne_panic o g fuel _ _ _ _
+
+theorem genAll_ne_panic (o : Oracle) (fuel r : Nat) (req : List Nat) :
+    ∀ sizes, genAll o fuel r req sizes ≠ .panic := by
+  intro sizes
+  induction sizes with
+  | nil => simp [genAll]
+  | cons s rest ih =>
+    unfold genAll
+    split
+    · split
+      · simp
+      · simp
+      · rename_i h; exact absurd h ih
+      · simp
+    · simp
+    · rename_i h; exact absurd h (genPrimes_ne_panic _ _ _ _ _ _)
+    · simp
+
+/-- `GenModuli` panics only through the negative shift count -/
+theorem genModuli_panic {o : Oracle} {fuel : Nat} {l : Int} {logQ logP : List Int}
+    (h : genModuli o fuel l logQ logP = .panic) : l < 0 := by
+  unfold genModuli at h
+  split at h
+  · cases h
+  · split at h
+    · cases h
+    · dsimp only at h
+      split at h
+      · cases h
+      · split at h
+        · assumption
+        · split at h
+          · cases h
+          · cases h
+          · rename_i hp; exact absurd hp (genAll_ne_panic _ _ _ _ _)
+          · cases h
+
+/-- the literal constructor panics only when the root order passed to `GenModuli` is negative -/
+theorem newParametersFromLiteral_panic {o : Oracle} {fuel : Nat} {lit : Literal}
+    (h : newParametersFromLiteral o fuel lit = .panic) :
+    max (lit.logN + (if lit.ringType = 0 then 1 else 2)) lit.logNthRoot < 0 := by
+  unfold newParametersFromLiteral at h
+  split at h
+  · cases h
+  · split at h
+    · cases h
+    · split at h
+      · cases h
+      · dsimp only at h
+        split at h
+        · cases h
+        · rename_i hg
+          split at hg
+          · split at hg
+            · split at hg
+              · cases hg
+              · cases hg
+              · rename_i hp; exact genModuli_panic hp
+              · cases hg
+            · cases hg
+          · cases hg
+        · cases h
+        · rename_i q p _
+          rcases newParameters_total o lit.logN ((q.orElse fun _ => lit.q).getD [])
+            ((p.orElse fun _ => lit.p).getD []) lit.ringType lit.xsWeight0 lit.xeStd0 with ⟨a, ha⟩ | ⟨c, hc⟩
+          · rw [ha] at h; cases h
+          · rw [hc] at h; cases h
+
+/-! ### completeness of `NewParameters`: the requirements are also sufficient -/
+
+theorem firstIdx_eq_none {α} (bad : α → Bool) :
+    ∀ (l : List α) (i : Nat), (∀ x ∈ l, bad x = false) → firstIdx bad l i = none := by
+  intro l
+  induction l with
+  | nil => intro i _; rfl
+  | cons y ys ih =>
+    intro i h
+    unfold firstIdx
+    have hy := h y (List.mem_cons_self ..)
+    simp only [hy, Bool.false_eq_true, if_false]
+    exact ih (i + 1) (fun x hx => h x (List.mem_cons_of_mem _ hx))
+
+theorem firstSome_eq_none {α β} (f : α → Option β) :
+    ∀ (l : List α), (∀ x ∈ l, f x = none) → firstSome f l = none := by
+  intro l
+  induction l with
+  | nil => intro _; rfl
+  | cons y ys ih =>
+    intro h
+    unfold firstSome
+    rw [h y (List.mem_cons_self ..)]
+    exact ih (fun x hx => h x (List.mem_cons_of_mem _ hx))
+
+theorem nodup_allDistinct : ∀ (l : List Nat), l.Nodup → allDistinct l = true := by
+  intro l
+  induction l with
+  | nil => intro _; rfl
+  | cons x xs ih =>
+    intro h
+    have := List.nodup_cons.mp h
+    unfold allDistinct
+    simp only [Bool.and_eq_true, Bool.not_eq_true', List.contains_eq_mem, decide_eq_false_iff_not]
+    exact ⟨this.1, ih this.2⟩
+
+theorem tooManyBits_eq_false {slack x : Nat} (h0 : x ≠ 0) (h : x < 2 ^ (MaxModuliSize + 1 + slack)) :
+    tooManyBits slack x = false := by
+  unfold tooManyBits
+  simp only [Bool.or_eq_false_iff, decide_eq_false_iff_not, not_lt]
+  refine ⟨h0, ?_⟩
+  have := (len64_le_iff x (MaxModuliSize + 1 + slack)).mpr h
+  omega
+
+theorem isPow2_two_pow (k : Nat) : isPow2 (2 ^ k) = true := by
+  unfold isPow2
+  simp only [decide_eq_true_eq]
+  rw [Nat.and_two_pow_sub_one_eq_mod, Nat.mod_self]
+
+/-- The requirements `NewParameters` really enforces (its exact acceptance condition, warnings aside). -/
+structure Requirements (o : Oracle) (logN : Int) (q p : List Nat) (rt : Nat) : Prop where
+  logN_ge : MinLogN ≤ logN
+  logN_le : logN ≤ MaxLogN
+  rt_ok : rt = 0 ∨ rt = 1
+  q_ne : q ≠ []
+  q_nodup : q.Nodup
+  p_nodup : p.Nodup
+  q_ok : ∀ m ∈ q, o.isPrime m = true ∧ m % 2 ^ (logN.toNat + 1 + rt) = 1 ∧ m < 2 ^ 62
+  p_ok : ∀ m ∈ p, o.isPrime m = true ∧ m % 2 ^ (logN.toNat + 1 + rt) = 1 ∧ m < 2 ^ 63
+
+theorem newRing_eq_none {o : Oracle} {k j : Nat} {ms : List Nat} (hk : 3 ≤ k) (hne : ms ≠ [])
+    (hnd : ms.Nodup) (hok : ∀ m ∈ ms, o.isPrime m = true ∧ m % 2 ^ (k + j) = 1) :
+    newRing o (2 ^ k) ms (2 ^ (k + j)) = none := by
+  unfold newRing
+  have h8 : ¬ (2 ^ k < MinRingDegree) := by
+    have : 2 ^ 3 ≤ 2 ^ k := Nat.pow_le_pow_right (by decide) hk
+    unfold MinRingDegree; omega
+  have hemp : ms.isEmpty = false := by
+    cases ms with
+    | nil => exact absurd rfl hne
+    | cons _ _ => rfl
+  simp only [decide_eq_true_eq, h8, isPow2_two_pow, Bool.not_true, Bool.false_and, Bool.or_self,
+    Bool.false_eq_true, if_false, hemp, nodup_allDistinct ms hnd, decide_false]
+  apply firstSome_eq_none
+  intro m hm
+  obtain ⟨h1, h2⟩ := hok m hm
+  unfold subRingCheck
+  have hm0 : m ≠ 0 := by
+    intro h; subst h
+    rw [Nat.zero_mod] at h2; cases h2
+  have hn0 : 2 ^ k ≠ 0 := Nat.pos_iff_ne_zero.mp (Nat.two_pow_pos k)
+  simp only [hn0, hm0, decide_false, Bool.or_self, Bool.false_eq_true, if_false, h1, Bool.not_true,
+    Nat.and_two_pow_sub_one_eq_mod, h2, bne_self_eq_false]
+
+theorem newParameters_complete {o : Oracle} {logN : Int} {q p : List Nat} {rt : Nat}
+    (hreq : Requirements o logN q p rt) :
+    newParameters o logN q p rt false false = .ok { logN := logN.toNat, q := q, p := p, ringType := rt } := by
+  obtain ⟨h1, h2, h3, h4, h5, h6, h7, h8⟩ := hreq
+  unfold newParameters
+  have hsz : checkSizeParams logN = none := by
+    unfold checkSizeParams
+    simp only [gt_iff_lt, Int.not_lt.mpr h2, Int.not_lt.mpr h1, if_false]
+  have hcm : checkModuli o q p = none := by
+    unfold checkModuli
+    have hq0 : ∀ m ∈ q, m ≠ 0 := by
+      intro m hm h; subst h
+      have := (h7 0 hm).2.1
+      rw [Nat.zero_mod] at this; cases this
+    have hp0 : ∀ m ∈ p, m ≠ 0 := by
+      intro m hm h; subst h
+      have := (h8 0 hm).2.1
+      rw [Nat.zero_mod] at this; cases this
+    rw [firstIdx_eq_none _ q 0 (fun m hm => tooManyBits_eq_false (hq0 m hm) (h7 m hm).2.2)]
+    simp only
+    rw [firstIdx_eq_none _ q 0 (fun m hm => by simp [(h7 m hm).1])]
+    simp only
+    rw [firstIdx_eq_none _ p 0 (fun m hm => tooManyBits_eq_false (hp0 m hm) (h8 m hm).2.2)]
+    simp only
+    rw [firstIdx_eq_none _ p 0 (fun m hm => by simp [(h8 m hm).1])]
+  have hk : 3 ≤ logN.toNat := by unfold MinLogN at h1; omega
+  have hring : ∀ ms : List Nat, ms ≠ [] → ms.Nodup →
+      (∀ m ∈ ms, o.isPrime m = true ∧ m % 2 ^ (logN.toNat + 1 + rt) = 1) →
+      newRingFromType o (2 ^ logN.toNat) ms rt = none := by
+    intro ms hne hnd hok
+    unfold newRingFromType
+    rcases h3 with h3 | h3 <;> subst h3
+    · simp only [if_true]
+      have : 2 * 2 ^ logN.toNat = 2 ^ (logN.toNat + 1) := by rw [Nat.pow_succ]; ring
+      rw [this]
+      exact newRing_eq_none hk hne hnd (by simpa using hok)
+    · simp only [show (1 : Nat) ≠ 0 by decide, if_false, if_true]
+      have : 4 * 2 ^ logN.toNat = 2 ^ (logN.toNat + 2) := by rw [Nat.pow_succ, Nat.pow_succ]; ring
+      rw [this]
+      exact newRing_eq_none hk hne hnd (by simpa using hok)
+  rw [hsz, hcm]
+  simp only
+  rw [hring q h4 h5 (fun m hm => ⟨(h7 m hm).1, (h7 m hm).2.1⟩)]
+  simp only
+  have hp : (if p.isEmpty = true then none else newRingFromType o (2 ^ logN.toNat) p rt) = none := by
+    by_cases hpe : p.isEmpty = true
+    · simp [hpe]
+    · simp only [hpe, if_false]
+      apply hring p _ h6 (fun m hm => ⟨(h8 m hm).1, (h8 m hm).2.1⟩)
+      intro h; subst h; simp at hpe
+  rw [hp]
+  simp
+
+theorem requirements_of_ok {o : Oracle} {logN : Int} {q p : List Nat} {rt : Nat} {w0 s0 : Bool}
+    {a : Accepted} (h : newParameters o logN q p rt w0 s0 = .ok a) : Requirements o logN q p rt := by
+  have f := newParameters_ok h
+  have hnth := nthRoot_pow a (by rw [f.rt_eq]; exact f.rt_ok)
+  have hl : a.logN = logN.toNat := by have := f.logN_eq; omega
+  rw [hl, f.rt_eq] at hnth
+  exact
+    { logN_ge := f.logN_ge, logN_le := f.logN_le, rt_ok := f.rt_ok, q_ne := f.q_ne,
+      q_nodup := f.q_nodup, p_nodup := f.p_nodup,
+      q_ok := fun m hm => ⟨f.q_prime m hm, by rw [← hnth]; exact f.q_ntt m hm, f.q_bits m hm⟩,
+      p_ok := fun m hm => ⟨f.p_prime m hm, by rw [← hnth]; exact f.p_ntt m hm, f.p_bits m hm⟩ }
+
 end Lattigo.Params
